@@ -15,7 +15,7 @@ import (
 	"math"
 	"strings"
 
-	"golang.org/x/tools/go/ssa"
+	"gclverify/xt/ssa"
 )
 
 type Term struct {
